@@ -202,4 +202,212 @@ theorem cInv_empty : CInv CBitSet.empty := by
 
 theorem CBitSet.abs_empty : CBitSet.empty.abs = BitSet.empty := rfl
 
+/-! ### `binary_search_by` on the map -/
+
+theorem searchMap_spec (pm : PMap) (hs : (pm.map (·.1)).Pairwise (· < ·)) (m : Nat) :
+    (searchMap pm m).2 ≤ pm.length ∧
+    (searchMap pm m).2 = pm.countP (fun e => e.1 < m) ∧
+    (∀ e ∈ pm.take (searchMap pm m).2, e.1 < m) ∧
+    (∀ e ∈ pm.drop (searchMap pm m).2, m ≤ e.1) ∧
+    ((searchMap pm m).1 = true →
+      (searchMap pm m).2 < pm.length ∧ (pm.getD (searchMap pm m).2 (0, 0)).1 = m) ∧
+    ((searchMap pm m).1 = false → ∀ e ∈ pm, e.1 ≠ m) := by
+  induction pm with
+  | nil => simp [searchMap]
+  | cons kv rest ih =>
+    obtain ⟨k, i⟩ := kv
+    simp only [List.map_cons, List.pairwise_cons, List.mem_map, forall_exists_index, and_imp,
+      forall_apply_eq_imp_iff₂] at hs
+    obtain ⟨hk, hrest⟩ := hs
+    obtain ⟨i1, i2, i3, i4, i5, i6⟩ := ih hrest
+    simp only [searchMap]
+    by_cases h1 : k = m
+    · subst h1
+      simp only [if_true]
+      refine ⟨by simp, ?_, by simp, ?_, by simp, by simp⟩
+      · rw [List.countP_cons]
+        simp only [Nat.lt_irrefl, decide_false, Bool.false_eq_true, if_false, Nat.add_zero]
+        symm
+        rw [List.countP_eq_zero]
+        intro e he
+        have := hk e he
+        simp; omega
+      · intro e he
+        simp only [List.drop_zero, List.mem_cons] at he
+        rcases he with rfl | he
+        · simp
+        · have := hk e he; omega
+    · rw [if_neg h1]
+      by_cases h2 : m < k
+      · rw [if_pos h2]
+        refine ⟨by simp, ?_, by simp, ?_, by simp, ?_⟩
+        · rw [List.countP_cons]
+          have : ¬ k < m := by omega
+          simp only [this, decide_false, Bool.false_eq_true, if_false, Nat.add_zero]
+          symm
+          rw [List.countP_eq_zero]
+          intro e he
+          have := hk e he
+          simp; omega
+        · intro e he
+          simp only [List.drop_zero, List.mem_cons] at he
+          rcases he with rfl | he
+          · simp; omega
+          · have := hk e he; omega
+        · intro _ e he
+          simp only [List.mem_cons] at he
+          rcases he with rfl | he
+          · simp; omega
+          · have := hk e he; omega
+      · rw [if_neg h2]
+        have h3 : k < m := by omega
+        simp only []
+        refine ⟨by simp; omega, ?_, ?_, ?_, ?_, ?_⟩
+        · rw [List.countP_cons]
+          simp only [h3, decide_true, if_true]
+          omega
+        · intro e he
+          simp only [List.take_succ_cons, List.mem_cons] at he
+          rcases he with rfl | he
+          · exact h3
+          · exact i3 e he
+        · intro e he
+          simp only [List.drop_succ_cons] at he
+          exact i4 e he
+        · intro hr
+          obtain ⟨j1, j2⟩ := i5 hr
+          refine ⟨by simp; omega, ?_⟩
+          simpa using j2
+        · intro hr e he
+          simp only [List.mem_cons] at he
+          rcases he with rfl | he
+          · simp; omega
+          · exact i6 hr e he
+
+/-! ### view updates -/
+
+/-- `ensurePage` on a mapped list follows the scan of `searchMap` -/
+theorem ensurePage_map (g : Nat → Page) (pm : PMap) (m n : Nat) (hg : g n = Page.zero) :
+    ensurePage (pm.map (fun e => (e.1, g e.2))) m =
+      if (searchMap pm m).1 then pm.map (fun e => (e.1, g e.2))
+      else (insertAt pm (searchMap pm m).2 (m, n)).map (fun e => (e.1, g e.2)) := by
+  induction pm with
+  | nil => simp [ensurePage, searchMap, insertAt, hg]
+  | cons kv rest ih =>
+    obtain ⟨k, i⟩ := kv
+    simp only [List.map_cons, ensurePage, searchMap]
+    by_cases h1 : k = m
+    · subst h1
+      simp
+    · rw [if_neg h1]
+      by_cases h2 : m < k
+      · rw [if_pos h2, if_pos h2]
+        simp [insertAt, hg]
+      · rw [if_neg h2, if_neg h2, if_neg (fun h => h1 h.symm), ih]
+        simp only []
+        split
+        · rfl
+        · simp [insertAt]
+
+theorem lookup_none_of_keys {ps : Pages} {m : Nat} (h : ∀ kp ∈ ps, kp.1 ≠ m) : lookup ps m = none := by
+  induction ps with
+  | nil => rfl
+  | cons kp ps ih =>
+    obtain ⟨k, p⟩ := kp
+    simp only [lookup]
+    rw [if_neg (h (k, p) (by simp))]
+    exact ih (fun q hq => h q (by simp [hq]))
+
+/-- overwriting the page behind index `idx` = `setPage` at the major that owns `idx` -/
+theorem setPage_map (g : Nat → Page) (q : Page) (pm : PMap) (m idx : Nat)
+    (hs : (pm.map (·.1)).Pairwise (· < ·)) (H : ∀ e ∈ pm, (e.2 = idx ↔ e.1 = m)) :
+    pm.map (fun e => (e.1, if e.2 = idx then q else g e.2)) =
+      setPage (pm.map (fun e => (e.1, g e.2))) m q := by
+  induction pm with
+  | nil => rfl
+  | cons kv rest ih =>
+    obtain ⟨k, i⟩ := kv
+    simp only [List.map_cons, List.pairwise_cons, List.mem_map, forall_exists_index, and_imp,
+      forall_apply_eq_imp_iff₂] at hs
+    obtain ⟨hk, hrest⟩ := hs
+    have H0 := H (k, i) (by simp)
+    simp only at H0
+    simp only [List.map_cons, setPage]
+    by_cases h1 : k = m
+    · rw [if_pos h1, if_pos (H0.2 h1)]
+      congr 1
+      apply List.map_congr_left
+      intro e he
+      have h2 : e.1 ≠ m := by have := hk e he; omega
+      have h3 : ¬ e.2 = idx := fun h => h2 ((H e (by simp [he])).1 h)
+      rw [if_neg h3]
+    · rw [if_neg h1, if_neg (fun h => h1 (H0.1 h))]
+      congr 1
+      exact ih hrest (fun e he => H e (by simp [he]))
+
+/-- keys and indices of the map are both injective -/
+theorem map_entry_unique {pm : PMap} (hs : (pm.map (·.1)).Pairwise (· < ·)) (hn : (pm.map (·.2)).Nodup)
+    {m idx : Nat} (hm : (m, idx) ∈ pm) : ∀ e ∈ pm, (e.2 = idx ↔ e.1 = m) := by
+  induction pm with
+  | nil => simp at hm
+  | cons kv rest ih =>
+    obtain ⟨k, i⟩ := kv
+    simp only [List.map_cons, List.pairwise_cons, List.mem_map, forall_exists_index, and_imp,
+      forall_apply_eq_imp_iff₂, List.nodup_cons] at hs hn
+    obtain ⟨hk, hrest⟩ := hs
+    obtain ⟨hi, hnrest⟩ := hn
+    intro e he
+    simp only [List.mem_cons] at hm he
+    rcases hm with hm | hm
+    · injection hm with e1 e2
+      subst e1; subst e2
+      rcases he with rfl | he
+      · simp
+      · constructor
+        · intro h; exact absurd h (fun h => hi ⟨e, he, h⟩)
+        · intro h; have := hk e he; omega
+    · rcases he with rfl | he
+      · constructor
+        · intro h; simp only at h; exact absurd h (fun h => hi ⟨(m, idx), hm, h.symm⟩)
+        · intro h; simp only at h; subst h; have := hk _ hm; simp at this
+      · exact ih hrest hnrest hm e he
+
+theorem aview_set (pm : PMap) (pages : List CPage) (h : CInvS pm pages) (m idx : Nat) (q : CPage)
+    (hm : (m, idx) ∈ pm) : aview pm (pages.set idx q) = setPage (aview pm pages) m q.abs := by
+  have hlt := h.idxLt _ hm
+  simp only at hlt
+  unfold aview
+  rw [← setPage_map (fun i => (pages.getD i CPage.zero).abs) q.abs pm m idx h.sorted
+    (map_entry_unique h.sorted h.idxNodup hm)]
+  apply List.map_congr_left
+  intro e he
+  rw [cv_getD_set]
+  by_cases h1 : e.2 = idx
+  · rw [if_pos ⟨h1.symm, hlt⟩, if_pos h1]
+  · rw [if_neg (fun hc => h1 hc.1.symm), if_neg h1]
+
+theorem lookup_aview (pm : PMap) (pages : List CPage) (h : CInvS pm pages) (m idx : Nat)
+    (hm : (m, idx) ∈ pm) : lookup (aview pm pages) m = some (pages.getD idx CPage.zero).abs := by
+  apply lookup_of_mem (aview_inv pm pages h).1
+  simp only [aview, List.mem_map]
+  exact ⟨(m, idx), hm, rfl⟩
+
+theorem lookup_aview_none (pm : PMap) (pages : List CPage) (m : Nat) (hm : ∀ e ∈ pm, e.1 ≠ m) :
+    lookup (aview pm pages) m = none := by
+  apply lookup_none_of_keys
+  intro kp hkp
+  simp only [aview, List.mem_map] at hkp
+  obtain ⟨e, he, rfl⟩ := hkp
+  exact hm e he
+
+/-- overwriting a referenced page by a well-formed one keeps the structure -/
+theorem cInvS_set (pm : PMap) (pages : List CPage) (h : CInvS pm pages) (idx : Nat) (q : CPage)
+    (hq : CPageOk q) : CInvS pm (pages.set idx q) := by
+  refine ⟨by rw [List.length_set]; exact h.lenEq, h.sorted, h.idxNodup,
+    fun e he => by rw [List.length_set]; exact h.idxLt e he, ?_⟩
+  intro p hp
+  rcases List.mem_or_eq_of_mem_set hp with hp | hp
+  · exact h.pagesOk p hp
+  · exact hp ▸ hq
+
 end FontVerif.IntSet
